@@ -77,6 +77,16 @@ def work(item):
     except Exception:
         gmd = None
     md_store, names_store = md, names
+    # corpus (inputs that once exposed something): ECP-only elements with --get-aux (F19: diagnostics of the generator landed on stdout)
+    for argv, kw in ((['get-basis', 'def2-ecp', 'nwchem', '--get-aux', '1', '--elements', '37,38'], dict(fmt='nwchem', get_aux=1, elements='37,38')),
+                     (['get-basis', 'lanl2dz ecp', 'gaussian94', '--get-aux', '2', '--elements', '11'], dict(fmt='gaussian94', get_aux=2, elements='11'))):
+        if argv[1] in md:
+            want = api_call(bse.get_basis, argv[1], **kw)
+            got = run_cli(argv)
+            rec = dict(kind='get-basis', bad=[], line=argv)
+            if want[0] == 'ok' and (got[0] != 'ok' or got[1] != want[1] + '\n'):
+                rec['bad'].append(('cli_equals_api', 'output (%d chars) differs from the API value (%d chars) + newline' % (len(got[1]), len(want[1]))))
+            out.append(rec)
     for i in range(n):
         kind = rng.choice(['get-basis'] * 6 + ['get-refs', 'get-refs', 'get-info', 'get-notes', 'get-family', 'get-family-notes', 'get-versions', 'lookup', 'list', 'list',
                                               'invalid', 'convert', 'aux', 'bundle'])
